@@ -262,3 +262,38 @@ Section Serial.
   Definition serial (bodies : nat -> list (S -> S)) (ord : list nat) (s0 : S) : S :=
     fold_right (fun i s => run_body (bodies i) s) s0 ord.
 End Serial.
+
+(* ---- readers and writers under ONE RWMutex ----
+   writer k runs  Lock; f_1; ...; f_n; Unlock  (its body changes the state in several
+   steps); reader k runs  RLock; a := q sigma; RUnlock.  Readers may overlap each other. *)
+Section RW.
+  Variable S A : Type.
+  Inductive rwstate :=
+    | WIdle | WIn (rest : list (S -> S)) | WDone
+    | RIdle | RIn | RGot (a : A) | RDone (a : A).
+  Record rwconfig := mk_rwconfig { rsigma : S; rths : nat -> rwstate; rorder : list nat }. (* newest first *)
+  Definition rwupd (h : nat -> rwstate) (i : nat) (x : rwstate) : nat -> rwstate :=
+    fun j => if Nat.eqb j i then x else h j.
+  Definition writer_in (x : rwstate) : Prop := exists r, x = WIn r.
+  Definition reader_in (x : rwstate) : Prop := x = RIn \/ exists a, x = RGot a.
+
+  Inductive rwstep (wb : nat -> list (S -> S)) (rq : nat -> S -> A) (c : rwconfig) : rwconfig -> Prop :=
+    | RWLock i : rths c i = WIdle -> (forall j, ~ writer_in (rths c j) /\ ~ reader_in (rths c j)) ->
+        rwstep wb rq c (mk_rwconfig (rsigma c) (rwupd (rths c) i (WIn (wb i))) (i :: rorder c))
+    | RWStep i f r : rths c i = WIn (f :: r) ->
+        rwstep wb rq c (mk_rwconfig (f (rsigma c)) (rwupd (rths c) i (WIn r)) (rorder c))
+    | RWUnlock i : rths c i = WIn [] ->
+        rwstep wb rq c (mk_rwconfig (rsigma c) (rwupd (rths c) i WDone) (rorder c))
+    | RRLock i : rths c i = RIdle -> (forall j, ~ writer_in (rths c j)) ->
+        rwstep wb rq c (mk_rwconfig (rsigma c) (rwupd (rths c) i RIn) (rorder c))
+    | RRRead i : rths c i = RIn ->
+        rwstep wb rq c (mk_rwconfig (rsigma c) (rwupd (rths c) i (RGot (rq i (rsigma c)))) (rorder c))
+    | RRUnlock i a : rths c i = RGot a ->
+        rwstep wb rq c (mk_rwconfig (rsigma c) (rwupd (rths c) i (RDone a)) (rorder c)).
+
+  Inductive rwsteps (wb : nat -> list (S -> S)) (rq : nat -> S -> A) : rwconfig -> rwconfig -> Prop :=
+    | rwsteps_refl c : rwsteps wb rq c c
+    | rwsteps_trans c c' c'' : rwsteps wb rq c c' -> rwstep wb rq c' c'' -> rwsteps wb rq c c''.
+
+  Definition rwinit (s0 : S) (h : nat -> rwstate) : Prop := forall i, h i = WIdle \/ h i = RIdle.
+End RW.
